@@ -4,7 +4,7 @@ cross-check (symbolic execution on concrete inputs vs CPython on the real functi
 import ast
 import z3
 from .values import *   # noqa
-from .values import H2D
+from .values import H2D, HRec, VRecRef, VRecProto
 from . import values as VV
 
 
@@ -177,6 +177,8 @@ def float_sum(eng, st, o):
 def seq_of(eng, st, v, node=None):
     if isinstance(v, VRef) and isinstance(st.heap[v.addr], HSeq):
         return st.heap[v.addr]
+    if isinstance(v, VRef) and isinstance(st.heap[v.addr], HRec):
+        return HSeq(st.heap[v.addr].len, (lambda k, a=v.addr: VRecRef(a, k)))
     if isinstance(v, VTuple):
         items = v.items
 
@@ -219,6 +221,8 @@ def m_len(eng, st, args, kwargs, node):
     if isinstance(v, VRef):
         o = st.heap[v.addr]
         if isinstance(o, HSeq):
+            return VInt(o.len)
+        if isinstance(o, HRec):
             return VInt(o.len)
         if isinstance(o, HDict) and o.keys is not None:
             return VInt(st.heap[o.keys.addr].len)
@@ -670,6 +674,17 @@ def m_listcomp(eng, st, node):
         st.heap.update({a: o for a, o in s.heap.items() if a not in st.heap})
         return v
 
+    if not gen.ifs and isinstance(e0, VRecProto):
+        fields = {}
+        for fname in e0.fields:
+            fields[fname] = (lambda k, fname=fname: elem(k).fields[fname])
+        ftypes = {}
+        for fname, fv in e0.fields.items():
+            try:
+                ftypes[fname] = type_of(fv, st.heap)
+            except Unsupported:
+                pass
+        return st.alloc(HRec(n, fields, e0.cls, getattr(e0, "ftypes", None) or ftypes))
     if not gen.ifs:
         return st.alloc(HSeq(n, elem))
 
